@@ -7,6 +7,7 @@
 -/
 import Proofs.Bech32Keys
 import Proofs.Bech32Typo
+import Proofs.Bech32Tables
 namespace AgeModel
 namespace Props.C09
 open Bech32 Keys
@@ -272,6 +273,33 @@ theorem convertBits_inverse :
 theorem polymod_xor_linear (x y : Bytes) (a b : Nat) (hl : x.length = y.length) (ha : a < 2 ^ 30) (hb : b < 2 ^ 30) :
     (xorBytes x y).foldl polymodStep (a ^^^ b) = x.foldl polymodStep a ^^^ y.foldl polymodStep b :=
   foldl_polymodStep_lin x y a b hl ha hb
+
+/-! ## typos
+
+  `hamming a b` counts the positions at which two strings differ; a string with
+  "up to W characters replaced" is one of the same length with `1 ≤ hamming ≤ W`
+  (for equal lengths `hamming = 0` iff the strings are equal).
+  `NoLowWeight W` (Proofs/Bech32Typo.lean): no non-zero error pattern of weight
+  ≤ W over 5-bit symbols within the 58 data characters of a native string has
+  zero syndrome.  Substitutions that touch the prefix or the separator are
+  rejected by the exact-HRP test and need no coding theory: the proof of
+  `decode_distance` only ever compares two strings that both decoded with the
+  same HRP. -/
+
+/-- the Bech32 code has no non-zero codeword-difference of weight ≤ 3 within 58 symbols;
+    the finite facts come from `decide +kernel` in Proofs/Bech32Tables.lean -/
+theorem no_low_weight_codeword_le3 : NoLowWeight 3 :=
+  noLowWeight_of_facts 3 (by decide) fact2 (fun _ => fact3) (fun h => absurd h (by decide))
+
+/-- a native recipient or identity string in which one, two or three characters
+    have been replaced is never accepted -/
+theorem typo_rejected_le3 (k s' : Bytes) (hk : k.length = 32) :
+    (s'.length = (recipientString k).length → s' ≠ recipientString k → hamming (recipientString k) s' ≤ 3 →
+      ∃ e, parseX25519Recipient s' = .error e) ∧
+    (s'.length = (identityString k).length → s' ≠ identityString k → hamming (identityString k) s' ≤ 3 →
+      ∃ e, parseX25519Identity s' = .error e) :=
+  ⟨fun hl hne hd => recipient_typo 3 no_low_weight_codeword_le3 k s' hk hl hne hd,
+   fun hl hne hd => identity_typo 3 no_low_weight_codeword_le3 k s' hk hl hne hd⟩
 
 end Props.C09
 end AgeModel
